@@ -32,7 +32,9 @@ def conv_case(flavour):
     @st.composite
     def s(draw):
         m = draw(data.model(flavour=flavour, max_blocks=8))
-        m['mesh_mode'] = 'infile'; m['xp'] = 'off'; m['order'] = 'canonical'
+        m['mesh_mode'] = 'infile'; m['xp'] = 'off'
+        drawn_order = list(m['sections'])
+        m['order'] = 'canonical'
         m['sections'] = [k for k in t2_ref.KEYWORDS if k in m['sections']]
         if flavour == 'AUTOUGH2':
             for k in ('foft', 'coft', 'goft'): m.pop(k, None)
@@ -43,7 +45,14 @@ def conv_case(flavour):
                 g0 = dict(m['generators'][0]); g0['type'] = draw(st.sampled_from(['DELG', 'CO2 ', 'MASS'])); g0['ltab'] = None
                 g0['time'], g0['rate'], g0['enthalpy'], g0['itab'] = [], [], [], ' '
                 m['generators'].append(g0)       # duplicated (block, name) key
-        return {'k': 'to_tough2' if flavour == 'AUTOUGH2' else 'to_autough2', 'm': m, 'MP': draw(st.booleans()),
+        extra = {}
+        if flavour != 'AUTOUGH2' and draw(st.booleans()):
+            # the TOUGH2 model is not built in memory but read from a file written by another program, whose sections come
+            # in the order drawn with the model (any legal order)
+            extra['from_file'] = drawn_order
+        # another model, with another solver choice, is converted after this one and before this one is looked at
+        extra['then_other'] = draw(st.booleans())
+        return {'k': 'to_tough2' if flavour == 'AUTOUGH2' else 'to_autough2', 'm': m, 'MP': draw(st.booleans()), **extra,
                 'via': draw(st.sampled_from(['method', 'method', 'setter'])),
                 'held_history': draw(st.lists(st.sampled_from(['block', 'connection', 'generator']), max_size=2, unique=True))}
     return s()
@@ -187,8 +196,17 @@ def run_to_tough2(case, R):
 def run_to_autough2(case, R):
     import t2data
     m = case['m']
-    with R.lib('build'):
-        d = data.build(m)
+    if case.get('from_file'):
+        from props import c01
+        fm = c01.file_form(m); fm['sections'] = [k for k in case['from_file'] if k in m['sections']]
+        f0 = os.path.join(R.tmp, 'source.dat')
+        t2_ref.write(f0, fm, style='e', au=False)
+        R.label('source:read-from-a-file:' + ('canonical-order' if fm['sections'] == m['sections'] else 'other-section-order'))
+        with R.lib('read-source'):
+            d = t2data.t2data(f0)
+    else:
+        with R.lib('build'):
+            d = data.build(m)
     before = data.extract(d)
     gens0 = before.get('generators') or []
     with R.lib('convert'):
@@ -196,6 +214,22 @@ def run_to_autough2(case, R):
         else: d.convert_to_AUTOUGH2(warn=False, MP=case['MP'])
     R.label('via:' + case['via'], 'MP:%s' % case['MP'])
     after = data.extract(d)
+    if case.get('then_other'):
+        # a second, unrelated model (the other linear-solver choice) converted afterwards: this model is what it was
+        R.label('then:another-model-converted')
+        m2 = copy.deepcopy(m)
+        t_now = (m.get('solver') or {}).get('type') or int(m['param']['mop'][20])
+        t_other = 1 if [2, 1, 2, 2, 1, 2, 1][t_now if 0 <= t_now <= 6 else 0] == 2 else 2
+        if m2.get('solver'): m2['solver']['type'] = t_other
+        else: m2['param']['mop'] = m2['param']['mop'][:20] + str(t_other) + m2['param']['mop'][21:]
+        with R.lib('convert-another'):
+            d_other = data.build(m2)
+            d_other.convert_to_AUTOUGH2(warn=False, MP=False)
+        again = data.extract(d)
+        if again != after:
+            k = next((k for k in after if again.get(k) != after[k]), '?')
+            R.fail('to_autough2:changed-by-a-later-conversion:' + k, 'after another model was converted this one has %s = %r, it had %r' % (
+                k, again.get(k), after[k]))
     R.check(d.type == 'AUTOUGH2', 'to_autough2:type', 'type is %r' % d.type)
     R.check(bool(d.simulator) and d.simulator.rstrip().endswith('EW'), 'to_autough2:simulator', repr(d.simulator))
     R.check(not d.solver, 'to_autough2:solver-left', repr(d.solver))
